@@ -559,6 +559,11 @@ func c08Gen(t *rapid.T) c08Case {
 	case 0:
 		kind := rapid.SampledFrom([]string{"head", "tail", "headtail", "headhead", "tailtail"}).Draw(t, "modkind")
 		m := c08Mod{Kind: kind, P: rapid.IntRange(-20, 20).Draw(t, "p"), Q: rapid.IntRange(-20, 20).Draw(t, "q")}
+		if rapid.IntRange(0, 3).Draw(t, "faroff") == 0 {
+			// offsets far outside any sequence: a modifier is text first
+			far := []int{-1 << 62, -1<<53 - 1, -1<<32 - 1, -1 << 31, -1000, 1000, 1<<31 - 1, 1 << 31, 1<<32 + 1, 1 << 53, 1 << 62}
+			m.P, m.Q = rapid.SampledFrom(far).Draw(t, "farp"), rapid.SampledFrom(append(far, 0, 1, -1)).Draw(t, "farq")
+		}
 		if kind == "head" || kind == "tail" {
 			m.Q = 0
 		}
